@@ -18,6 +18,8 @@ CROSS_RULES = ("dry.", "stringly-typed.")
 
 
 def cross_for(n: int) -> list[list[int]]:
+    if n >= 6:
+        return [[1, 2, 5], [3, n]]      # a group of three: findings list two OTHER files
     if n >= 4:
         return [[1, 2], [3, n]]
     if n == 3:
